@@ -55,10 +55,9 @@ class IntegratorTemplate(abc.ABC):
             rtol = self.solver_dict['rtol']
             dState = self.solver_dict['dState']
             order = self.solver_dict['order']
-            if "system_scaling" in self.solver_dict:
-                self.solver_dict["system_scaling"] = 0.8 * self.solver_dict["system_scaling"] +  0.2 * D.ar_numpy.maximum(D.ar_numpy.abs(initial_state), D.ar_numpy.abs(dState / timestep))
-            else:
-                self.solver_dict["system_scaling"] = D.ar_numpy.maximum(D.ar_numpy.abs(initial_state), D.ar_numpy.abs(dState / timestep))
+            # the scale of the relative tolerance follows the CURRENT state: a running average over earlier steps lags behind a decaying solution
+            # (the Richardson wrappers, whose solver_dict persists between steps, then accept errors orders of magnitude above rtol*|y|)
+            self.solver_dict["system_scaling"] = D.ar_numpy.maximum(D.ar_numpy.abs(initial_state), D.ar_numpy.abs(dState / timestep))
             total_error_tolerance = (atol + rtol * self.solver_dict["system_scaling"])
             with D.numpy.errstate(divide='ignore'):
                 epsilon_current = D.ar_numpy.reciprocal(D.ar_numpy.linalg.norm(diff / total_error_tolerance))
